@@ -7,6 +7,7 @@ import (
 	"crypto/rsa"
 	"crypto/x509"
 	"fmt"
+	"math/big"
 
 	"github.com/notaryproject/notation-core-go/signature"
 )
@@ -124,6 +125,19 @@ func genC02(tier string, rng *RNG, w *CaseWriter) {
 		}
 		_, errL := signature.NewLocalSigner(b.xs, Key(kn))
 		_, errW := signature.NewLocalSigner(b.xs, Key(wrongKey[kn]))
+		if rk, ok := Key(kn).(*rsa.PrivateKey); ok && errW != nil {
+			// a look-alike private key: same modulus, another public exponent (not the key of the certificate)
+			if twin := rsaTwin(rk); twin != nil {
+				_, errW = signature.NewLocalSigner(b.xs, twin)
+			}
+		}
+		if ek, ok := Key(kn).(*ecdsa.PrivateKey); ok && errW != nil {
+			// same curve, another point
+			other := *Key(wrongKey[kn]).(*ecdsa.PrivateKey)
+			if other.Curve == ek.Curve {
+				_, errW = signature.NewLocalSigner(b.xs, &other)
+			}
+		}
 		ks := trueKeySpec(Key(kn))
 		algName := numJose[int(ks.SignatureAlgorithm())]
 		if algName == "" {
@@ -172,4 +186,25 @@ func genC02(tier string, rng *RNG, w *CaseWriter) {
 		}
 	}
 	_ = rng
+}
+
+// rsaTwin: a valid RSA private key over the same primes with public exponent 65539
+func rsaTwin(k *rsa.PrivateKey) *rsa.PrivateKey {
+	if len(k.Primes) != 2 {
+		return nil
+	}
+	one := big.NewInt(1)
+	phi := new(big.Int).Mul(new(big.Int).Sub(k.Primes[0], one), new(big.Int).Sub(k.Primes[1], one))
+	for _, e := range []int64{65539, 65543, 17, 257} {
+		d := new(big.Int).ModInverse(big.NewInt(e), phi)
+		if d == nil {
+			continue
+		}
+		t := &rsa.PrivateKey{PublicKey: rsa.PublicKey{N: new(big.Int).Set(k.N), E: int(e)}, D: d, Primes: []*big.Int{new(big.Int).Set(k.Primes[0]), new(big.Int).Set(k.Primes[1])}}
+		t.Precompute()
+		if t.Validate() == nil {
+			return t
+		}
+	}
+	return nil
 }
